@@ -32,6 +32,7 @@ ObsSt(e) == [ conn  |-> SetOf(e.st.conn),
               csub  |-> SetOf(e.st.csub),
               cbind |-> SetOf(e.st.cbind),
               data  |-> [c \in Cells |-> e.st.data[c]],
+              rdata |-> [p \in Peers |-> e.st.rdata[p]],
               nsub  |-> 0, nbind |-> 0 ]
 
 NormDg(d) == [k |-> d.k, ok |-> d.ok, ref |-> d.ref, src |-> d.src, dst |-> d.dst,
@@ -66,7 +67,8 @@ Comp(x, c) == CASE c = "out"   -> x.out
                 [] c = "csub"  -> x.st.csub
                 [] c = "cbind" -> x.st.cbind
                 [] c = "data"  -> x.st.data
-StateComps == {"out", "ev", "ret", "conn", "known", "subs", "binds", "csub", "cbind", "data"}
+                [] c = "rdata" -> x.st.rdata
+StateComps == {"out", "ev", "ret", "conn", "known", "subs", "binds", "csub", "cbind", "data", "rdata"}
 Mismatch(o, obs) == {c \in Checked \cap StateComps : Comp(o, c) # Comp(obs, c)}
 
 Init == l = 1 /\ st = InitSt /\ bad = << >> /\ devs = << >>
